@@ -40,7 +40,8 @@ def intervals(rng, H, n=None, allow_touch=True):
     for _ in range(n):
         lo = rng.randint(0, H - 1)
         hi = rng.randint(lo + 1, min(H, lo + 3))
-        out.append([lo, hi])
+        if [lo, hi] not in out:      # well-formedness assumption: no interval listed twice
+            out.append([lo, hi])
     return out
 
 
